@@ -937,6 +937,7 @@ class LDAPServer(LDAPSession):
         self,
         msg: LDAPMessage,
     ) -> int:
+        buffer_length = len(self._outgoing_buffer)
         msg_id = super()._send(msg)
 
         if not isinstance(msg, UnbindRequest):
@@ -944,6 +945,8 @@ class LDAPServer(LDAPSession):
                 if not isinstance(msg, (SearchResultEntry, SearchResultReference)):
                     self._outstanding_requests.remove(msg_id)
             else:
+                # Do not leave the rejected response in the outgoing data.
+                del self._outgoing_buffer[buffer_length:]
                 raise LDAPError(f"Message {msg} is a response to an unknown request")
 
         return msg_id
